@@ -1,9 +1,9 @@
 (* C14 — executable model of the retry loop and of the HTTP back-off wait policies.
    Mirrors (AFTER the proposed fixes fixes/C14-*.patch):
-     utils/retry/retry.go            RetryIf :16-56 (policy -> retry-go options, the wrapper around fn with the context check)
+     utils/retry/retry.go            RetryIf :16-59 (policy -> retry-go options, the wrapper :35-42 around fn with the context check)
      avast/retry-go/v4 v4.6.1        DoWithData retry.go:123-223 (attempts != 0 branch, lastErrorOnly, custom retryIf)  [MODELLED, third party]
      utils/commonerrors/errors.go    ConvertContextError :191-202
-     utils/http/retry_policy.go      Apply x3 :34-103, BackOffPolicyFactory :105-116, findRetryAfter :118-158
+     utils/http/retry_policy.go      Apply x3 :34-43, :58-75, :90-104, BackOffPolicyFactory :114-125, findRetryAfter :127-158, parseDate :160-172
      hashicorp/go-retryablehttp 0.7.7 DefaultBackoff / parseRetryAfterHeader / LinearJitterBackoff client.go:551-639, Do :649-830 [MODELLED]
    int / int64 / time.Duration are 64-bit two's complement (linux/amd64): every Go multiplication / addition is written
    with its wrap-around ([wrap64]).  Definitions only; proofs are in Proofs.v.  Own numeric helpers (no dependency on C10). *)
@@ -97,7 +97,7 @@ Record response := mkResp { r_status : Z; r_retry_after : option (list Z) }.
 
 (* Everything the wait computation takes from outside the arithmetic: *)
 Record oracle := mkOracle {
-  o_date : option Z;     (* parseDate(header) succeeded (retry_policy.go:146-158); the value is time.Until(afterTime) in ns *)
+  o_date : option Z;     (* parseDate(header) succeeded (retry_policy.go:160-172); the value is time.Until(afterTime) in ns *)
   o_rfc1123 : option Z;  (* time.Parse(time.RFC1123, header) succeeded (retryablehttp.parseRetryAfterHeader); retryTime.Sub(now) *)
   o_jitter : Z;          (* int64(rand.Float64() * float64(max-min)) in LinearJitterBackoff *)
   o_impl : Z             (* the platform's result of an out-of-range float64 -> int64 conversion *)
@@ -108,7 +108,7 @@ Definition max_retry_after_seconds : Z := Z.quot max_i64 second.   (* const maxR
 
 Definition is_429_503 (st : Z) : bool := (st =? 429) || (st =? 503).
 
-(* findRetryAfter (retry_policy.go:118-144, fixed): Some wait <-> found.  Seconds form: negative -> 0, saturated at
+(* findRetryAfter (retry_policy.go:127-158, fixed): Some wait <-> found.  Seconds form: negative -> 0, saturated at
    maxRetryAfterSeconds, then time.Second * time.Duration(sleep) WITH wrap-around written out; the date form is tried as
    well and wins when it parses: one clock reading, clamped at 0. *)
 Definition find_retry_after (r : option response) (o : oracle) : option Z :=
@@ -154,11 +154,11 @@ Definition parse_retry_after_header (h : option (list Z)) (o : oracle) : option 
 
 Inductive kind := Basic | Linear | Exponential.
 
-(* BackOffPolicyFactory (retry_policy.go:105-116) + NewRetryWaitPolicy (:18-26), cfg != nil *)
+(* BackOffPolicyFactory (retry_policy.go:114-125) + NewRetryWaitPolicy (:19-26), cfg != nil *)
 Definition policy_of (enabled backoff linear retry_after_disabled : bool) : kind * bool :=
   (if enabled && backoff then (if linear then Linear else Exponential) else Basic, negb retry_after_disabled).
 
-(* the exponential formula: ExponentialBackoffPolicy.Apply :89-94 and, identically, DefaultBackoff client.go:560-565 *)
+(* the exponential formula: ExponentialBackoffPolicy.Apply :98-103 and, identically, DefaultBackoff client.go:560-565 *)
 Definition exp_formula (min max n impl : Z) : Z :=
   let mult := fmul (pow2 n) (rne53 min) in
   let sleep := to_dur impl mult in
@@ -178,7 +178,7 @@ Definition linear_jitter (min max n j : Z) : Z :=
   if max <=? min then mul64 min a
   else mul64 (add64 j min) a.
 
-(* the saturation guard of LinearBackoffPolicy.Apply (fix): largest := max(min, max);
+(* the saturation guard of LinearBackoffPolicy.Apply :65-73 (fix): largest := max(min, max);
    largest > 0 && attemptNum >= 0 && int64(attemptNum) >= math.MaxInt64/int64(largest) *)
 Definition linear_saturates (min max n : Z) : bool :=
   let largest := if min >? max then min else max in
@@ -294,7 +294,7 @@ Fixpoint loop (cfg : rcfg) (script : list attempt) (rem : nat) (k : nat) (done :
       end
   end.
 
-(* retry.RetryIf (retry.go:16-56).  [ctx0]: the context is already done on entry (DoWithData :135 returns ctx.Err()). *)
+(* retry.RetryIf (retry.go:16-59).  [ctx0]: the context is already done on entry (DoWithData :135 returns ctx.Err()). *)
 Definition run (cfg : rcfg) (ctx0 : bool) (script : list attempt) (sched : list bool) : trace * result :=
   if negb (c_enabled cfg) then
     (* :20 return fn() — one invocation whatever the context; the error is returned as it is *)
